@@ -358,6 +358,16 @@ func checkC08(c C08Case, rec *obs.Recorder) *obs.Violation {
 			if _, err := toks[i].tok.GetBlockID(bridge.ToFact(c08Fact(tag, 0))); err == nil {
 				return obs.Violf("history [%s]: GetBlockID found a fact nobody added", strings.Join(hist, "; "))
 			}
+			// a predicate name the token knows (or a default symbol) with a string it has never seen
+			probes := []m.Pred{m.P("right", m.Str("probe_"+tag)), m.P("resource", m.Str("probe2_"+tag), m.Var("pv_"+tag))}
+			if fs := toks[i].model[0].Facts; len(fs) > 0 {
+				probes = append(probes, m.P(fs[0].Name, m.Str("probe3_"+tag)))
+			}
+			for _, p := range probes {
+				if _, err := toks[i].tok.GetBlockID(bridge.ToFact(p)); err == nil {
+					return obs.Violf("history [%s]: GetBlockID found %s, which nobody added", strings.Join(hist, "; "), p.Text())
+				}
+			}
 			for bi, b := range toks[i].model {
 				if len(b.Facts) > 0 {
 					got, err := toks[i].tok.GetBlockID(bridge.ToFact(b.Facts[0]))
